@@ -31,6 +31,11 @@ def write_obligations(files, subdir="ob"):
 def compile_all(files, subdir="ob", timeout=900, jobs=14):
     """files: dict filename -> text. returns dict filename -> (ok, log tail, print-assumptions axioms)"""
     d = write_obligations(files, subdir)
+    # the regenerated tables the obligations import must be compiled from their CURRENT text
+    gens = ["gen/%s.vo" % f[:-2] for f in sorted(os.listdir(common.GEN)) if f.endswith(".v")]
+    ok, log = common.coq_make(gens)
+    if not ok:
+        return {fn: (False, "regenerated tables do not compile: " + log[-800:], []) for fn in files}
     try:
         cache = json.load(open(CACHE))
     except Exception:  # noqa
